@@ -39,6 +39,7 @@ func (e *Engine) input(name string, idx int, w int) *Term {
 		full = fmt.Sprintf("%s[%d]", name, idx)
 	}
 	if e.cfg.Concrete != nil {
+		e.res.InputNames[full] = w
 		arr := e.cfg.Concrete[name]
 		i := idx
 		if i < 0 {
@@ -54,6 +55,7 @@ func (e *Engine) input(name string, idx int, w int) *Term {
 		return e.ts.Const(w, v)
 	}
 	t := e.ts.Var(full, w)
+	e.res.InputNames[full] = w
 	if !e.inputSet[full] {
 		e.inputSet[full] = true
 		e.inputs = append(e.inputs, t)
@@ -145,6 +147,7 @@ func (e *Engine) sigID(name, sym string) int {
 func init() {
 	reg := func(name string, f intrinsic) { intrinsics[rtPkg+name] = f }
 
+	reg("Thorough", func(e *Engine, fn *ssa.Function, a []Value) Value { return e.ts.Bool(e.cfg.Thorough) })
 	reg("Symbolic", func(e *Engine, fn *ssa.Function, a []Value) Value { return e.ts.True })
 	reg("Bytes", func(e *Engine, fn *ssa.Function, a []Value) Value {
 		n := e.concInt(a[1])
@@ -258,6 +261,7 @@ func init() {
 	})
 	reg("Tag", func(e *Engine, fn *ssa.Function, a []Value) Value {
 		e.tag = concStr(e, a[0])
+		e.ts.Plain = e.tag == "arith"
 		return nil
 	})
 	reg("Unwind", func(e *Engine, fn *ssa.Function, a []Value) Value {
@@ -337,6 +341,24 @@ func init() {
 			s.D = []Value{}
 		}
 		return s
+	})
+	reg("CutNext", func(e *Engine, fn *ssa.Function, a []Value) Value {
+		e.pendingCuts[concStr(e, a[0])] = cutSpec{name: concStr(e, a[0]), lo: a[1].(*Term).Val, hi: a[2].(*Term).Val}
+		return nil
+	})
+	reg("CutValueOr", func(e *Engine, fn *ssa.Function, a []Value) Value {
+		if c, ok := e.cuts[concStr(e, a[0])]; ok {
+			return c.v
+		}
+		if !e.concreteMode() {
+			e.unsupported("cut %q was requested but its site was not found in the code under test", concStr(e, a[0]))
+		}
+		return a[1]
+	})
+	reg("Summarize", func(e *Engine, fn *ssa.Function, a []Value) Value {
+		e.summaries[concStr(e, a[0])] = a[1].(Iface).V
+		e.sumCache = map[*ssa.Function]Value{}
+		return nil
 	})
 	reg("OpaqueString", func(e *Engine, fn *ssa.Function, a []Value) Value {
 		return Str{S: "<opaque>", Conc: true}
